@@ -1,7 +1,10 @@
 #!/bin/bash
 # runs every seeded change against its property's quick check and records the outcome in its meta.json
 cd /verif
+# usage: seeded_all.sh [stream k of n]  — seeds whose index mod n == k
+k=${1:-0}; n=${2:-1}; i=-1
 for d in seeded/C*-*; do
+  i=$((i+1)); [ $((i % n)) -eq $k ] || continue
   [ -f $d/patch.diff ] || continue
   out=$(tools/seeded.sh /verif/$d 2>&1)
   echo "== $d"; echo "$out" | grep -v "^WARNING"
